@@ -2,6 +2,7 @@ import Driver.StoreOps
 import Driver.ExecOps
 import Driver.CodecOps
 import Driver.ChecksumOps
+import Driver.DiagOps
 open Lean Driver
 
 def dispatch (j : Json) : P Json := do
@@ -11,6 +12,8 @@ def dispatch (j : Json) : P Json := do
   | "sctx" => opServerCtx j
   | "exec" => opExec j
   | "codec" => opCodec j
+  | "predict" => opPredict j
+  | "diagreply" => opDiagReply j
   | "crc" => opCrc j
   | "lrc" => opLrc j
   | "crctable" => opCrcTable j
